@@ -221,7 +221,10 @@ def dset (d : List (Nat × α)) (k : Nat) (v : α) : List (Nat × α) :=
   | e :: es => if e.1 == k then (k, v) :: es else e :: dset es k v
 
 /-- `d.pop(k, None)` -/
-def derase (d : List (Nat × α)) (k : Nat) : List (Nat × α) := d.filter (fun e => e.1 != k)
+def derase (d : List (Nat × α)) (k : Nat) : List (Nat × α) :=
+  match d with
+  | [] => []
+  | e :: es => if e.1 == k then derase es k else e :: derase es k
 
 end Dict
 
@@ -320,53 +323,58 @@ def handleWriteHead (v : Variant) (w : WReq) (rest : List WReq) (addr status : N
     | (q', .error e) => (q', [], .error e)
     | (q', .ok sent) => (q', sent, .ok [.writeFail w.tag w.id w.addr])
 
+/-- `Memory._handle_chan_write` after the reply has been parsed into `(id, addr, status)` -/
+def onWriteReply (v : Variant) (s : St) (id addr status : Nat) : Step :=
+  -- before the repair the lookup `if id in self._write_requests:` precedes the acquire
+  if !v.handleLookupInside && !dhas s.writes id then ⟨s, [], .ret none⟩ else
+  -- self._write_requests_lock.acquire()  /  with self._write_requests_lock:
+  if s.lock then ⟨s, [], .hang⟩ else
+  -- [repaired] if id in self._write_requests and ...
+  if !dhas s.writes id then ⟨s, [], .ret none⟩ else
+  match s.queue id with
+  | [] =>
+    -- [repaired] `... and len(self._write_requests[id]) > 0` : nothing to do
+    if v.handleGuard then ⟨s, [], .ret none⟩
+    -- wreq = self._write_requests[id][0]  ->  IndexError inside the critical section
+    else ⟨{ s with lock := !v.handleWith }, [], .raised .indexError⟩
+  | w :: rest =>
+    match handleWriteHead v w rest addr status with
+    | (q', outs, .error e) => ⟨{ s with writes := dset s.writes id q', lock := !v.handleWith }, outs, .raised e⟩
+    -- release, then the callbacks
+    | (q', outs, .ok cbs) => ⟨{ s with writes := dset s.writes id q', lock := false }, outs ++ cbs, .ret none⟩
+
 /-- `Memory._handle_chan_write(cmd, payload)` -/
 def handleChanWrite (v : Variant) (s : St) (cmd : Nat) (payload : List UInt8) : Step :=
-  -- (addr, status) = struct.unpack('<IB', payload[0:5])
+  -- id = cmd; (addr, status) = struct.unpack('<IB', payload[0:5])
   match unpack fmtAck (payload.take 5) with
   | .error e => ⟨s, [], .raised e⟩
-  | .ok [.int addr, .int status] =>
-    let id := cmd
-    -- before the repair the lookup `if id in self._write_requests:` precedes the acquire
-    if !v.handleLookupInside && !dhas s.writes id then ⟨s, [], .ret none⟩ else
-    -- self._write_requests_lock.acquire()  /  with self._write_requests_lock:
-    if s.lock then ⟨s, [], .hang⟩ else
-    -- [repaired] if id in self._write_requests and ...
-    if !dhas s.writes id then ⟨s, [], .ret none⟩ else
-    match s.queue id with
-    | [] =>
-      -- [repaired] `... and len(self._write_requests[id]) > 0` : nothing to do
-      if v.handleGuard then ⟨s, [], .ret none⟩
-      -- wreq = self._write_requests[id][0]  ->  IndexError inside the critical section
-      else ⟨{ s with lock := !v.handleWith }, [], .raised .indexError⟩
-    | w :: rest =>
-      match handleWriteHead v w rest addr.toNat status.toNat with
-      | (q', outs, .error e) => ⟨{ s with writes := dset s.writes id q', lock := !v.handleWith }, outs, .raised e⟩
-      -- release, then the callbacks
-      | (q', outs, .ok cbs) => ⟨{ s with writes := dset s.writes id q', lock := false }, outs ++ cbs, .ret none⟩
+  | .ok [.int addr, .int status] => onWriteReply v s cmd addr.toNat status.toNat
   | .ok _ => ⟨s, [], .raised .structError⟩
+
+/-- `Memory._handle_chan_read` after the reply has been parsed into `(id, addr, status, data)` -/
+def onReadReply (s : St) (id addr status : Nat) (data : List UInt8) : Step :=
+  -- if id in self._read_requests: rreq = self._read_requests[id]
+  match dget? s.reads id with
+  | none => ⟨s, [], .ret none⟩
+  | some r =>
+    if status = 0 then
+      -- if rreq.add_data(addr, payload[5:]): pop; self.mem_read_cb.call(rreq.mem, rreq.addr, rreq.data)
+      match addData r addr data with
+      | (r', outs, .error e) => ⟨{ s with reads := dset s.reads id r' }, outs, .raised e⟩
+      | (r', outs, .ok (some true)) =>
+        ⟨{ s with reads := derase s.reads id }, outs ++ [.readOk r'.tag r'.id r'.addr r'.data], .ret none⟩
+      | (r', outs, .ok _) => ⟨{ s with reads := dset s.reads id r' }, outs, .ret none⟩
+    else
+      -- pop; self.mem_read_failed_cb.call(rreq.mem, rreq.addr, rreq.data)
+      ⟨{ s with reads := derase s.reads id }, [.readFail r.tag r.id r.addr r.data], .ret none⟩
 
 /-- `Memory._handle_chan_read(cmd, payload)` -/
 def handleChanRead (s : St) (cmd : Nat) (payload : List UInt8) : Step :=
-  -- (addr, status) = struct.unpack('<IB', payload[0:5]); data = struct.unpack('B' * len(payload[5:]), payload[5:])
+  -- id = cmd; (addr, status) = struct.unpack('<IB', payload[0:5])
+  -- data = struct.unpack('B' * len(payload[5:]), payload[5:])    (cannot fail)
   match unpack fmtReadReply (payload.take 5) with
   | .error e => ⟨s, [], .raised e⟩
-  | .ok [.int addr, .int status] =>
-    let id := cmd
-    -- if id in self._read_requests: rreq = self._read_requests[id]
-    match dget? s.reads id with
-    | none => ⟨s, [], .ret none⟩
-    | some r =>
-      if status.toNat = 0 then
-        -- if rreq.add_data(addr, payload[5:]): pop; self.mem_read_cb.call(rreq.mem, rreq.addr, rreq.data)
-        match addData r addr.toNat (payload.drop 5) with
-        | (r', outs, .error e) => ⟨{ s with reads := dset s.reads id r' }, outs, .raised e⟩
-        | (r', outs, .ok (some true)) =>
-          ⟨{ s with reads := derase s.reads id }, outs ++ [.readOk r'.tag r'.id r'.addr r'.data], .ret none⟩
-        | (r', outs, .ok _) => ⟨{ s with reads := dset s.reads id r' }, outs, .ret none⟩
-      else
-        -- pop; self.mem_read_failed_cb.call(rreq.mem, rreq.addr, rreq.data)
-        ⟨{ s with reads := derase s.reads id }, [.readFail r.tag r.id r.addr r.data], .ret none⟩
+  | .ok [.int addr, .int status] => onReadReply s cmd addr.toNat status.toNat (payload.drop 5)
   | .ok _ => ⟨s, [], .raised .structError⟩
 
 /-- `Memory._new_packet_cb(packet)` for a packet on port MEM, channel `chan`, with payload `data`.
